@@ -665,6 +665,7 @@ struct Run<'a> {
     to_coq: bool,
     n_token_spans: usize,
     n_other_spans: usize,
+    alt_counter: usize,
 }
 
 const KF_EOI: &str = "eoi:range-start-not-collapsed";
@@ -865,6 +866,35 @@ impl<'a> Run<'a> {
     /// the same fault reached through render_block / render_component
     fn other_entry_points(&mut self, tera: &Tera, p: &Plant, fault: &Fault, ctx: &Context) {
         let placement = p.desc["placement"].as_str().unwrap_or("").to_string();
+        // the entry template rendered as a one-off string: it is then called `__tera_one_off`
+        if matches!(placement.as_str(), "top" | "include" | "component" | "include-from-component-body") {
+            const ONE_OFF: &str = "__tera_one_off";
+            let src = p.templates.iter().find(|(n, _)| *n == p.entry).unwrap().1.clone();
+            let r = std::panic::catch_unwind(std::panic::AssertUnwindSafe(|| tera.render_str(&src, ctx, false)));
+            let mut templates = p.templates.clone();
+            templates.push((ONE_OFF.to_string(), src));
+            let rename = |n: &String| if *n == p.entry { ONE_OFF.to_string() } else { n.clone() };
+            let mut q = Plant {
+                templates, entry: ONE_OFF.into(), fault_tpl: rename(&p.fault_tpl), token: p.token.clone(), stmt: p.stmt.clone(),
+                calls: p.calls.iter().map(|(c, r, w)| (rename(c), r.clone(), w.clone())).collect(),
+                region: p.region.clone(), expect_msg: p.expect_msg.clone(), generic: false, desc: p.desc.clone(),
+            };
+            q.desc["via"] = json!("render_str");
+            match r {
+                Err(_) => {
+                    self.meta.oracle_checks += 1;
+                    self.fail("panic during render_str", None, &q, None);
+                }
+                Ok(Ok(_)) => self.count(&format!("no-error-via-render_str:{}", fault.label)),
+                Ok(Err(e)) => {
+                    let info = inspect(&e);
+                    self.count(&format!("render_str:{}", info.class));
+                    if info.span.is_some() {
+                        self.check_report_error(&q, fault, &info);
+                    }
+                }
+            }
+        }
         let (r, calls, via) = match placement.as_str() {
             "ancestor-block" | "child-block-super" | "parent-via-super" | "grandparent-block" | "include-in-ancestor-block" => (
                 std::panic::catch_unwind(std::panic::AssertUnwindSafe(|| tera.render_block(&p.entry, "content", ctx))),
@@ -937,7 +967,12 @@ impl<'a> Run<'a> {
                     self.count(&format!("no-error:{}", fault.label));
                     return;
                 }
+                // oracle on all of them; every third one also goes to Coq
+                let keep = self.to_coq;
+                self.alt_counter += 1;
+                self.to_coq = keep && self.alt_counter % 3 == 0;
                 self.other_entry_points(&tera, p, fault, ctx);
+                self.to_coq = keep;
                 let r = std::panic::catch_unwind(std::panic::AssertUnwindSafe(|| tera.render(&p.entry, ctx)));
                 match r {
                     Err(_) => {
@@ -1411,7 +1446,7 @@ fn main() {
     }
 
     let mut run = Run { tokens: &mut tokens, spans: &mut spans, report: &mut report, eoi: &mut eoi, meta: &mut meta,
-        seen: Default::default(), oracle_nontrivial: 0, to_coq: true, n_token_spans: 0, n_other_spans: 0 };
+        seen: Default::default(), oracle_nontrivial: 0, to_coq: true, n_token_spans: 0, n_other_spans: 0, alt_counter: 0 };
 
     // ---- A. planted faults
     let rf = render_faults();
